@@ -67,6 +67,8 @@ def run(ctx):
         big = i % 2 == 0
         d = gen.tame_definition(ctx.rng, n_control=ctx.rng.choice([2] if big else [0, 1]), n_sensors=2 if big else 1, n_calib=ctx.rng.choice([0, 1]))
         process, sensor = eh.make_noises(ctx.rng, d)
+        if process and i % 3 == 1:
+            process[sorted(process)[0]] = F(0)      # a noise-free control is a valid (non-negative) process noise
         cal = {s.name: gen.dyadic(ctx.rng, -2, 2) for s in d.calibration}
         k = ctx.rng.choice([None, 5.0, 2.0])
         nrows = ctx.rng.randint(4, 8) if ctx.quick else ctx.rng.randint(4, 40)
